@@ -79,6 +79,35 @@ def main():
         # Linux): whatever module-level state exists is inherited by every child
         gffutils.create_db("chr1\ts\tgene\t1\t9\t.\t+\t.\tID=warm;Parent=x\nchr1\ts\tmRNA\t1\t9\t.\t+\t.\tID=warm2;Parent=warm\n"
                            "chr1\ts\texon\t1\t9\t.\t+\t.\tID=warm3;Parent=warm2\n", ":memory:", from_string=True).conn.close()
+        pdir = args.get("parent_dir")
+        for action in args.get("parent_actions", []):
+            # ordinary use of the library in the parent before forking; everything it touches is the parent's own
+            try:
+                wf = os.path.join(pdir, "warm_%d.db" % len(os.listdir(pdir)))
+                gffutils.create_db("chr1\ts\tgene\t1\t9\t.\t+\t.\tID=w\nchr1\ts\tmRNA\t1\t9\t.\t+\t.\tID=w2;Parent=w\n", wf,
+                                   from_string=True).conn.close()
+                h = gffutils.FeatureDB(wf)
+                if action == "set_pragmas journal_mode=WAL":
+                    h.set_pragmas({"journal_mode": "WAL"})
+                elif action == "set_pragmas query_only=ON":
+                    h.set_pragmas({"query_only": "ON"})
+                elif action == "switch toggled and restored":
+                    from gffutils import constants
+                    constants.ignore_url_escape_characters = True
+                    [str(f) for f in h.all_features()]
+                    constants.ignore_url_escape_characters = False
+                elif action == "update and delete":
+                    h.update("chr1\ts\texon\t1\t9\t.\t+\t.\tID=w3;Parent=w2\n", from_string=True, make_backup=False)
+                    h.delete("w3", make_backup=False)
+                elif action == "failed import":
+                    try:
+                        gffutils.create_db("chr1\ts\tgene\t1\t9\t.\t+\t.\tID=d\nchr1\ts\tgene\t1\t9\t.\t+\t.\tID=d\n",
+                                           os.path.join(pdir, "failed.db"), from_string=True)
+                    except Exception:
+                        pass
+                h.conn.close()
+            except Exception:
+                pass
         parent_log = list(log)
         del log[:]
         pids = []
@@ -155,14 +184,19 @@ def run_importer(args, gffutils, log, state, tmpdir):
     if not args.get("barrier"):
         time.sleep(args.get("offset_ms", 0) / 1000.0)
 
+    if args.get("start_after_arrivals"):
+        deadline = time.time() + 30
+        while time.time() < deadline and len(glob.glob(os.path.join(args["barrier_dir"], "*.arrived"))) < args["start_after_arrivals"]:
+            time.sleep(0.002)
     t0 = time.time()
     err = None
+    kw = {"force": True} if args.get("force") else {}
     try:
         if args.get("from_string"):
             data = open(args["input"], encoding="utf-8").read()
-            db = gffutils.create_db(data, args["out_db"], from_string=True)
+            db = gffutils.create_db(data, args["out_db"], from_string=True, **kw)
         else:
-            db = gffutils.create_db(args["input"], args["out_db"])
+            db = gffutils.create_db(args["input"], args["out_db"], **kw)
         db.conn.close()
         del db
     except BaseException as ex:
